@@ -5,6 +5,41 @@
 
 package models
 
+// ---------------------------------------------------------------------------------------------
+// Lock discipline (C09): which mutex guards which field, and the global acquisition order.
+// A field may be read with its mutex held for reading or writing and written only with it held
+// for writing; objects still under construction (allocated in the same function) are exempt.
+// Locks may only be acquired in strictly increasing level order.
+// ---------------------------------------------------------------------------------------------
+
+//@ type SequentialIDGenerator
+//@   guarded_by currentID, reusableIDs : mutex
+//@   lock_level mutex = 60
+
+//@ type Session
+//@   guarded_by participants : participantMutex
+//@   guarded_by entities : entityMutex
+//@   guarded_by moduleStates : moduleMutex
+//@   guarded_by frameHandlers : frameMutex
+//@   lock_level frameMutex = 20
+//@   lock_level participantMutex = 40
+//@   lock_level entityMutex = 40
+//@   lock_level moduleMutex = 40
+
+//@ type Entity
+//@   guarded_by pose : mutex
+//@   lock_level mutex = 50
+
+//@ type EntityComponentStore
+//@   guarded_by nameIndex, idIndex, entityComponents : mutex
+//@   guarded_by subscriptions : subscriptionMutex
+//@   lock_level subscriptionMutex = 30
+//@   lock_level mutex = 40
+
+//@ type SessionStore
+//@   guarded_by sessions : mutex
+//@   lock_level mutex = 10
+
 //@ spec fn live(g *SequentialIDGenerator, i uint32) bool = 1 <= i && i <= g.currentID && !(i in g.reusableIDs)
 //@ spec fn wfGen(g *SequentialIDGenerator) bool = forall i: uint32 :: i in g.reusableIDs ==> 1 <= i && i <= g.currentID
 
@@ -251,7 +286,7 @@ package models
 //@   requires wfStore(s) && h != nil
 //@   modifies nothing
 //@   allocates
-//@   calls h(ids) when subscriberCount(s, entityComponentTypeID) > 0
+//@   calls h(ids) when subscriberCount(s, entityComponentTypeID) > 0 holding subscriptionMutex:r
 //@     with {C13} len(ids) == subscriberCount(s, entityComponentTypeID)
 //@     with {C13} forall j: int :: 0 <= j && j < len(ids) ==> subscribed(s, entityComponentTypeID, ids[j])
 //@     with {C13} forall p: uint32 :: subscribed(s, entityComponentTypeID, p) ==> exists j: int :: 0 <= j && j < len(ids) && ids[j] == p
@@ -416,3 +451,8 @@ package models
 //@   ensures {C07} forall g: string :: g != gid(serverid(s.DiscoveryService), session.ID) ==> ((g in s.sessions) <==> old(g in s.sessions)) && (g in s.sessions ==> s.sessions[g] == old(s.sessions[g]))
 //@   ensures {C10} !live(s.ids, session.ID) && forall i: uint32 :: i != session.ID ==> (live(s.ids, i) <==> old(live(s.ids, i)))
 //@   ensures {C07} gaugetotal(sessions) == old(gaugetotal(sessions)) - 1
+
+// init is only ever run as the body of initOnce.Do (every accessor calls Do first), so its writes
+// are ordered before every later access by sync.Once.
+//@ func (*models.SessionStore).init
+//@   once_body
